@@ -357,4 +357,72 @@ theorem fold_untouched (chk : Nat → Bool) (ks : List Nat) (P : Pool) (a : Nat)
       exact filterAcc_lookup_ne this
     · rfl
 
+/-! ### `BaseOK` / `NoEmpty` building blocks -/
+
+theorem baseOK_acquire {P : Pool} (h : PInv P) (hb : BaseOK P) (a : Nat) : BaseOK (P.acquire a).1 := by
+  obtain ⟨hP1, hl, _, _, _, hst, _, _, hne, hnone, hsome⟩ := pinv_acquire h a
+  intro b L hL
+  rw [hst]
+  by_cases hba : b = a
+  · subst hba
+    have := lookup_of_mem hP1.keys hL
+    rw [hl] at this
+    injection this with this
+    cases hq : lookup b P.lists with
+    | none => rw [← this, hnone hq]
+    | some M => rw [← this, (hsome M hq).1]; exact hb _ _ (lookup_mem hq)
+  · have := lookup_of_mem hP1.keys hL
+    rw [hne b hba] at this
+    exact hb b L (lookup_mem this)
+
+/-- `release a` leaves no empty list if every list other than `a`'s is non-empty. -/
+theorem noEmpty_release {P : Pool} (h : PInv P) (a : Nat)
+    (hne : ∀ b M, (b, M) ∈ P.lists → b ≠ a → M.list ≠ []) : NoEmpty (P.release a) := by
+  intro b M hM
+  by_cases hba : b = a
+  · subst hba
+    have hl := lookup_of_mem (pinv_release h b).keys hM
+    rcases @lookup_release_self P b with ⟨hn, _⟩ | ⟨M', h1, _, h3⟩
+    · rw [hn] at hl; cases hl
+    · rw [h1] at hl; injection hl with hl; subst hl; exact h3
+  · exact hne b M (mem_release hM) hba
+
+theorem mem_acquire {P : Pool} {a b : Nat} {M : TxList} (h : (b, M) ∈ (P.acquire a).1.lists) (hba : b ≠ a) :
+    (b, M) ∈ P.lists := by
+  unfold Pool.acquire at h
+  split at h
+  · exact h
+  · simp only [List.mem_append, List.mem_cons, List.not_mem_nil, or_false, Prod.mk.injEq] at h
+    rcases h with h | ⟨h1, _⟩
+    · exact h
+    · exact absurd h1 hba
+
+theorem noEmpty_filterAcc {P : Pool} (h : PInv P) (hn : NoEmpty P) (a : Nat) : NoEmpty (P.filterAcc a) := by
+  cases hl : lookup a P.lists with
+  | none => rw [filterAcc_none hl]; exact hn
+  | some L =>
+    have hp := pinv_filterAcc h a
+    rw [filterAcc_some hl] at hp ⊢
+    intro b M hM
+    by_cases hba : b = a
+    · subst hba
+      have hlk := lookup_of_mem hp.keys hM
+      rcases @lookup_release_self ((filterCore P b L).dropTxs (L.filter (P.state b)).2.2) b with ⟨hn', _⟩ | ⟨M', h1, _, h3⟩
+      · rw [hn'] at hlk; cases hlk
+      · rw [h1] at hlk; injection hlk with hlk; subst hlk; exact h3
+    · have := mem_release hM
+      rw [dropTxs_lists] at this
+      rcases mem_setL this with ⟨h1, _⟩ | h2
+      · exact absurd h1 hba
+      · exact hn b M h2
+
+theorem noEmpty_evictAcc {P : Pool} (hn : NoEmpty P) (a : Nat) : NoEmpty (P.evictAcc a) := by
+  unfold Pool.evictAcc
+  split
+  · exact hn
+  · intro b M hM
+    have hM : (b, M) ∈ delL a (P.dropTxs _).lists := hM
+    rw [dropTxs_lists] at hM
+    exact hn b M (mem_delL hM).1
+
 end Aergo.Pool
